@@ -780,6 +780,8 @@ func (c *Client) Authenticate(username, password string) (User, error) {
 		return nil, ErrAuthenticate
 	}
 
+	verifPoint("meta.authenticate.verified")
+
 	// generate a salt and hash of the password for the cache
 	salt, hashed, err := c.saltedHash(password)
 	if err != nil {
